@@ -3,9 +3,10 @@ C06 — negation witnesses: concrete inputs on which the *full-strength* stateme
 model (and, replayed by the harness, of the implementation).  Each is listed in known_findings.txt.
 -/
 import WpModel.Model.StyleDoc
+import WpModel.Model.StyleMemo
 
 namespace Wp.Witness.C06
-open Wp Wp.Cascade Wp.Computed Wp.Style
+open Wp Wp.Cascade Wp.Computed Wp.Style Wp.StyleMemo
 
 def isOk (r : Except CErr Val) (v : Val) : Bool :=
   match r with
@@ -23,8 +24,8 @@ solution is the keyword `inherit`.  `__missing__` maps `inherit` to `initial` on
 (`TypeError`), whereas a directly cascaded `inherit` gives the initial value `auto`.
 (`C06.pending_valid_partial` therefore carries the hypothesis "not `inherit`, or not the root".) -/
 theorem var_inherit_on_root :
-    isTypeError (specified ⟨[("width", .pending (some (.kw "inherit")))], none⟩ none "width") = true ∧
-    (specified ⟨[("width", .val (.kw "inherit"))], none⟩ none "width").toOption
+    isTypeError (specified ⟨[("width", .pending (some (.kw "inherit")))], none, []⟩ none "width") = true ∧
+    (specified ⟨[("width", .val (.kw "inherit"))], none, []⟩ none "width").toOption
       = some (.kw "auto", true) := by
   decide
 
@@ -35,18 +36,40 @@ width is 0 when the style is none).  The same shortcut keeps `display: inherit` 
 box (CSS 2.1 §9.7), on which `float_layout` then fails an assertion. -/
 theorem inherit_skips_computing :
     let parent : Elem := ⟨[("border_top_style", .val (.kw "solid")),
-                           ("border_top_width", .val (.dim 5 "px"))], none⟩
-    let child : Elem := ⟨[("border_top_width", .val (.kw "inherit"))], none⟩
+                           ("border_top_width", .val (.dim 5 "px"))], none, []⟩
+    let child : Elem := ⟨[("border_top_width", .val (.kw "inherit"))], none, []⟩
     isOk (styleAt (1 / 2) (1 / 2) [child, parent] "border_top_style") (.kw "none") = true ∧
     isOk (styleAt (1 / 2) (1 / 2) [child, parent] "border_top_width") (.num 5) = true := by
   decide +kernel
 
 theorem inherit_skips_blockification :
-    let parent : Elem := ⟨[("display", .val (.strs ["inline", "flow"]))], none⟩
-    let root : Elem := ⟨[("display", .val (.strs ["block", "flow"]))], none⟩
-    let child : Elem := ⟨[("display", .val (.kw "inherit")), ("float", .val (.kw "left"))], none⟩
+    let parent : Elem := ⟨[("display", .val (.strs ["inline", "flow"]))], none, []⟩
+    let root : Elem := ⟨[("display", .val (.strs ["block", "flow"]))], none, []⟩
+    let child : Elem := ⟨[("display", .val (.kw "inherit")), ("float", .val (.kw "left"))], none, []⟩
     isOk (styleAt (1 / 2) (1 / 2) [child, parent, root] "float") (.kw "left") = true ∧
     isOk (styleAt (1 / 2) (1 / 2) [child, parent, root] "display") (.strs ["inline", "flow"]) = true := by
   decide +kernel
+
+/-- A style whose parent cannot deliver `page` (in the real code: an ancestor chain ending in a root
+with `page: var(--x)` solved to `inherit`, see `var_inherit_on_root`) and whose own `page` is a
+failed `var()`: the first read of `page` stores the initial value `auto`, then raises while asking
+the parent; the dict keeps `auto`, and the second read returns it although the memoised function
+still fails.  So `C06.lazy_eq_eager` needs its `NoStale` hypothesis. -/
+theorem stale_after_exception :
+    let c : Ctx := ⟨⟨[("page", .pending none)], none, []⟩,
+                    some (fun _ => .error (.typeError "parent_style[key]")), fun _ => .ok 16, 1 / 2, 1 / 2⟩
+    (readSeq c [] ["page", "page"]).map okVal = [none, some (.kw "auto")] ∧
+    okVal (pure' c "page") = none ∧
+    staleAfterFailure c.e c.parent "page" = some (.kw "auto") := by
+  decide
+
+
+/-- `border-image-width: 2em`: `computed_values.border_image_width` returns a length item as it is
+(`number if unit is None else value`), so the relative unit is never computed against the font size
+(`border_image_outset`, two lines below in the source, does call `length`).  Drawing the border image
+then fails `assert dimension.unit == 'px'`. -/
+theorem border_image_width_not_computed :
+    (borderImageWidth (.tup [.dim 2 "em"])).toOption = some (.tup [.dim 2 "em", .dim 2 "em", .dim 2 "em", .dim 2 "em"]) := by
+  decide
 
 end Wp.Witness.C06
